@@ -25,6 +25,17 @@ def reqCount (j : Json) : Nat :=
   | some (.arr a) => a.size
   | _ => 0
 
+def natList (j : Json) (k : String) : List Nat :=
+  match optField j k with
+  | some (.arr a) => a.toList.filterMap fun x => x.getNat?.toOption
+  | _ => []
+
+/-- no request pulled more than the applicable bound plus one transport chunk (<= 4096 bytes) -/
+def pulledWithinBounds (i m : Json) : Bool :=
+  let p := natList i "pulled"
+  let l := natList m "limits"
+  p.length == l.length && (p.zip l).all fun (a, b) => a ≤ b + 4096
+
 def errClass (s : String) : String :=
   if s.startsWith "expired" then s else if s == "clock" then s else if s == "ok" then s else "other"
 
@@ -38,7 +49,8 @@ def specOne (prop : String) (i m : Json) : Bool :=
                ((optField m "versions").bind fun v => (v.getArrVal? 0).toOption) else true) && rootReqs i == rootReqs m
   | "C04" => isOk i == isOk m && errClass (strField i "res") == errClass (strField m "res")
   | "C05" => isOk i == isOk m && optField i "reqs" == optField m "reqs"
-  | "C09" => isOk i == isOk m && reqCount i == reqCount m && optField i "capped" != some (Json.bool true)
+  | "C09" => isOk i == isOk m && reqCount i == reqCount m && optField i "capped" != some (Json.bool true) &&
+             pulledWithinBounds i m
   | _ => isOk i == isOk m && optField i "versions" == optField m "versions"
 
 def handle (j : Json) : Except String Json := do
